@@ -17,3 +17,12 @@ def _(v: List[Cell]) -> List[Cell]:
     requires(all_numeric(contents(v)), 'numbers_only')
     ensures(is_fresh(result) and contents(result) == ssort_cells(contents(v)) and len(result) == len(v), 'sorted_copy')
     ensures(forall(Int, lambda i: implies(0 <= i and i < len(v), is_num(contents(result)[i]))), 'numbers')
+
+
+@trusted('builtins.sorted.items_by_value', trusted='A-SORT: sorted(d.items(), key=lambda v: v[1]) lists every (key, value) entry of d once, in non-decreasing order of value; validated boundedly')
+def _(d: Dict[Int, Int]) -> Seq[Tuple[Int, Int]]:
+    ensures(len(result) == len(keys(d)), 'one_entry_per_key')
+    ensures(forall(Int, lambda j: implies(0 <= j and j < len(result), has_key(d, result[j][0]) and d[result[j][0]] == result[j][1])), 'entries_of_d')
+    ensures(forall(Int, Int, lambda a, b: implies(0 <= a and a < b and b < len(result), result[a][0] != result[b][0])), 'keys_once')
+    ensures(forall(Int, Int, lambda a, b: implies(0 <= a and a <= b and b < len(result), result[a][1] <= result[b][1])), 'ordered_by_value')
+    ensures(forall(Int, lambda k: implies(has_key(d, k), exists(Int, lambda j: 0 <= j and j < len(result) and result[j][0] == k))), 'every_key_listed')
